@@ -233,6 +233,38 @@ def finishWrite (env : Env) (fault : Fault) (rLoad rParent rOwn : Ret) (finalHol
 def writtenEnt (σ : StoreId) (db : Db) (id : String) (f : PFields) (rank : String) : Ent :=
   { f := f.norm, child := match σ with | .P => (db.get id).bind (·.child) | .C => some rank }
 
+/-- the parent fields a create replaces: those of an existing plain parent entity, when child data is
+    created over it through the child store (legal: a child store only looks at its own data for
+    "already exists") -/
+def createOld (σ : StoreId) (db : Db) (id : String) : Option PFields :=
+  match σ with
+  | .P => none
+  | .C => (db.get id).map (·.f)
+
+/-- BaseStore.Create from PersistEntity on, when the holder is still empty: the writes, `if
+    bucket.HasError()`, ProcessAfterUpdate, loadFinalState, events, final return.  `old` = the parent
+    fields ProcessBeforeUpdate remembered (child data created over an existing parent entity), if any. -/
+def createWrite (env : Env) (fault : Fault) (σ : StoreId) (id : String) (f : PFields) (rank : String)
+    (old : Option PFields) (st : TxSt) : TxSt × Res :=
+  let db0 := st.db
+  let fl : Flow := { store := σ, kind := .created, id := id, initial := none, final := none, parentEvent := false }
+  -- PersistEntity (the child strategy persists the parent fields through ctx.GetParentContext())
+  let p := persist fault σ Cnt.zero f
+  let st := raiseOpt { st with db := db0.put id (writtenEnt σ db0 id f rank) } p.2
+  let afterPersist : Option Res :=
+    match p.2 with
+    | none => none
+    | some e => match env.t.createPersist.act e with
+      | .ret r => some r
+      | .cont => none
+  match afterPersist with
+  | some r => (st, r)
+  | none =>
+    -- indexingContext.ProcessAfterUpdate (every level is skipped when the holder already has an error)
+    let ix := ixStage env σ .afterUpdate id true (indexErr true db0 st.db id old f) p.2 st
+    finishWrite env fault env.t.createLoad env.t.createParentEvent env.t.createOwnEvent
+      env.t.createFinalHolder fl ix.2 p.1 ix.1
+
 /-- BaseStore.Create.  A child store only looks at its own data for "already exists": child data may be
     created over an existing plain parent entity (`parentExists`), whose parent fields are then replaced —
     the parent context's ProcessBeforeUpdate runs first so that the parent's index entries are replaced. -/
@@ -250,43 +282,25 @@ def create (env : Env) (fault : Fault) (σ : StoreId) (id : String) (f : PFields
   | some r => (afterValidate.1, r)
   | none =>
     let st := afterValidate.1
-    let db0 := st.db
-    let fl : Flow := { store := σ, kind := .created, id := id, initial := none, final := none, parentEvent := false }
     -- `parentExists := store.parent != nil && store.parent.IsEntityPresent(...)`
-    let old : Option PFields := match σ with
-      | .P => none
-      | .C => (db0.get id).map (·.f)
+    let old : Option PFields := createOld σ st.db id
     -- getOrCreateEntityBucket; `if parentExists { indexingContext.Parent.ProcessBeforeUpdate() }` (the
     -- parent store's level only, IsCreate = true, the holder is the new bucket of the child path)
     let bu : TxSt × Option Err :=
       if old.isSome then ixStage env .P .beforeUpdate id true none none st else (st, none)
-    -- PersistEntity (the child strategy persists the parent fields through ctx.GetParentContext())
-    let p := persist fault σ Cnt.zero f
     let h0 : Option Err := if σ = .C ∧ env.t.persistSharesHolder = false then none else bu.2
     match h0 with
     | some e =>
-      -- ProceedWithSet: nothing is written; the (empty) bucket of the child path has been created
+      -- PersistEntity: ProceedWithSet writes nothing while the holder has an error; the (empty) bucket
+      -- of the child path has been created; `if bucket.HasError() { return bucket.GetError() }`
       let st := { bu.1 with inexact := true }
       match env.t.createPersist.act e with
       | .ret r => (st, r)
       | .cont =>
         finishWrite env fault env.t.createLoad env.t.createParentEvent env.t.createOwnEvent
-          env.t.createFinalHolder fl (some e) p.1 st
-    | none =>
-      let st := raiseOpt { bu.1 with db := db0.put id (writtenEnt σ db0 id f rank) } p.2
-      let afterPersist : Option Res :=
-        match p.2 with
-        | none => none
-        | some e => match env.t.createPersist.act e with
-          | .ret r => some r
-          | .cont => none
-      match afterPersist with
-      | some r => (st, r)
-      | none =>
-        -- indexingContext.ProcessAfterUpdate (every level is skipped when the holder already has an error)
-        let ix := ixStage env σ .afterUpdate id true (indexErr true db0 st.db id old f) p.2 st
-        finishWrite env fault env.t.createLoad env.t.createParentEvent env.t.createOwnEvent
-          env.t.createFinalHolder fl ix.2 p.1 ix.1
+          env.t.createFinalHolder { store := σ, kind := .created, id := id, initial := none, final := none, parentEvent := false }
+          (some e) (persist fault σ Cnt.zero f).1 st
+    | none => createWrite env fault σ id f rank old bu.1
 
 /-- the body of BaseStore.Update once the child-store strategies declined -/
 def updateLocal (env : Env) (fault : Fault) (σ : StoreId) (id : String) (f : PFields) (rank : String)
@@ -397,11 +411,12 @@ def fireAll (env : Env) (r : Ret) : List Flow → TxSt → TxSt × Res
       | .ret res => (fe.1, res)
       | .cont => fireAll env r rest fe.1
 
-/-- `else if changeFlow != nil { changeFlows = append(changeFlows, changeFlow); hasChildren = true }` -/
-def childFlowList (err : Option Err) (fl : Option Flow) : List Flow :=
-  match err, fl with
-  | none, some fl => [fl]
-  | _, _ => []
+/-- `else if changeFlow != nil { changeFlows = append(changeFlows, changeFlow); hasChildren = true }`
+    (reached with an error only when the table says the error is not tested there) -/
+def childFlowList (_err : Option Err) (fl : Option Flow) : List Flow :=
+  match fl with
+  | some fl => [fl]
+  | none => []
 
 /-- `if hasChildren { changeFlows[0].MarkParentEvent() }` -/
 def markedFlows (pfl : Flow) (childFlows : List Flow) : List Flow :=
